@@ -49,6 +49,9 @@ pub fn alphabet() -> Vec<Call> {
         c("erroneous", "#f( a, bbbbbbbbbb, cccccccccc", 80, 2, false),
         c("import_on", "#import \"m.typ\": c, b, a", 80, 2, true),
         c("import_off", "#import \"m.typ\": c, b, a", 80, 2, false),
+        // items that tie under every plausible sort key (same path under several names, same name
+        // from several paths): an order taken from a hashed container differs from run to run
+        c("import_ties", "#import \"m.typ\": a as y, q.c, b, a as x, p.c as d, a as w, c.c as e, a as v", 80, 2, true),
         c("doc", DOC, 40, 2, false),
         c("doc_reorder", DOC, 120, 3, true),
         // same shape, different answers of the table predicate / of the chain width estimate
@@ -489,7 +492,18 @@ pub fn worker_sched(args: &[String]) -> i32 {
         // determinism: the default schedule twice, and one deviating schedule twice, must agree point for point
         let a = run_schedule(&programs, &[]);
         let b = run_schedule(&programs, &[]);
-        if a.decisions != b.decisions || a.results != b.results {
+        if a.decisions == b.decisions && a.results != b.results {
+            // the same schedule, decision for decision, and different results: the harness owns every
+            // scheduling choice, so the difference comes from the subject (e.g. an order taken from a
+            // randomly seeded hash container). That is a violation, not a machinery failure.
+            out.push(json!({
+                "programs": set, "bound": bound, "schedules": 2, "decisions": a.decisions.len() + b.decisions.len(), "max_decisions_per_schedule": a.decisions.len(),
+                "distinct_outcomes": 2, "blocked_events": 0, "truncated": false,
+                "failures": [json!({"schedule": Vec::<usize>::new(), "message": format!("the default schedule run twice, decision for decision identical, returned different results: {:?} vs {:?}", a.results, b.results)})],
+            }));
+            continue;
+        }
+        if a.decisions != b.decisions {
             eprintln!("MACHINERY: replaying the default schedule of {set} twice gave different traces ({} vs {} decisions)", a.decisions.len(), b.decisions.len());
             return 2;
         }
@@ -582,7 +596,7 @@ pub fn run(tier: &str, seed: u64) -> i32 {
         cur = next;
     }
     // quick: all histories of length <= 2 in all modes, length 3 over the colliding half of the alphabet; thorough: all
-    let colliding: Vec<usize> = (0..n).filter(|&i| !matches!(a[i].name, "doc_reorder" | "import_off" | "flat_w0" | "range_all" | "comment" | "chain_short" | "import_on")).collect();
+    let colliding: Vec<usize> = (0..n).filter(|&i| !matches!(a[i].name, "doc_reorder" | "import_off" | "flat_w0" | "range_all" | "comment" | "chain_short" | "import_on" | "import_ties")).collect();
     let histories: Vec<Vec<usize>> = histories.into_iter().filter(|h| thorough || h.len() <= 2 || h.iter().all(|i| colliding.contains(i))).collect();
     let jobs: Vec<(usize, Vec<usize>)> = (0..modes).flat_map(|m| histories.iter().map(move |h| (m, h.clone()))).collect();
     let next_job = AtomicUsize::new(0);
